@@ -31,8 +31,8 @@ RULE = (
     "Jacobian-using method actually invoked (counted); distinct by structural hash."
 )
 ASSUMPTIONS = [
-    "numeric Jacobian by Richardson-extrapolated central differences; tolerance 1e-5*(1+|J|) (1e-4 next to a conditional boundary is skipped by moving the point)",
-    "trajectories with and without Jacobian compared at 1e-5 relative (integrator rtol=atol=1e-8)",
+    "evaluation times are > 0 (time as the base of a power is not differentiable at 0); numeric Jacobian by Richardson-extrapolated central differences; tolerance 1e-5*(1+|J|) (1e-4 next to a conditional boundary is skipped by moving the point)",
+    "trajectories with and without Jacobian are compared for the same method at 1e-4 relative (integrator rtol=atol=1e-8; generated nonlinear systems amplify the difference between the two Newton iterations)",
     "a logged fallback to the Jacobian-free integration is accepted, a crash inside the integrator is not; scipy's 'array must not contain infs or NaNs' at a singular point of a degenerate generated model and integration failures reported as failure values are counted, not judged",
 ]
 TECHNIQUE = "property-based differential testing: symbolic equations / Jacobian evaluated at generated states and changed parameter values vs the numeric model and its finite-difference Jacobian; Jacobian-on vs Jacobian-off simulation"
@@ -93,7 +93,7 @@ def _case(draw):
     state = {v: draw(st.sampled_from([0.3, 0.7, 1.1, 1.6, 2.3, 3.1])) for v in var_names(spec)}
     plain = [n for n, p in decls_of(spec, "parameter") if "ia" not in p]
     newp = {n: draw(st.sampled_from([0.35, 0.6, 0.9, 1.3, 1.7, 2.2, 2.9])) for n in plain if draw(st.booleans())}
-    return {"lib": lib, "spec": spec, "state": state, "time": draw(st.sampled_from([0.0, 0.4, 1.3])), "new_params": newp, "untranslatable": unt, "simulate": draw(st.integers(0, 2)) == 0}
+    return {"lib": lib, "spec": spec, "state": state, "time": draw(st.sampled_from([0.4, 1.3, 2.0])), "new_params": newp, "untranslatable": unt, "simulate": draw(st.integers(0, 2)) == 0}
 
 
 def strategy(tier: str):
@@ -334,8 +334,16 @@ def examine(case: dict, ctx) -> Outcome:
                 # were already compared pointwise above
                 out.classes.append(f"integration-failure-with-jacobian:{method}")
                 continue
-            a, b = r.variables.to_numpy(), ref.variables.to_numpy()
-            if a.shape != b.shape or not np.all(np.abs(a - b) <= 1e-5 * (1 + np.abs(b))):
+            # same method without the Jacobian (the default-method run above only filters untame models)
+            try:
+                plain = Simulator(build(spec), integrator=partial(Scipy, method=method)).simulate(horizon, steps=4).get_result().value
+            except Exception:  # noqa: BLE001
+                plain = None
+            if plain is None or isinstance(plain, Exception):
+                out.classes.append(f"method-fails-without-jacobian-too:{method}")
+                continue
+            a, b = r.variables.to_numpy(), plain.variables.to_numpy()
+            if a.shape != b.shape or not np.all(np.abs(a - b) <= 1e-4 * (1 + np.abs(b))):
                 out.bad(f"trajectory-differs-with-jacobian:{method}", with_jacobian=a[-1].tolist(), without=b[-1].tolist())
     return out
 
